@@ -616,4 +616,106 @@ theorem nameInZone_sound (name zone : Str) (hz : zone ≠ [])
           simp only [hroot, if_false]
           exact LabelsEq.refl _
 
+/-- Wherever the label list is cut in two, the string was cut at a separating dot. -/
+theorem splitLabels_cut : ∀ (l : Str) (bs : Nat) (cur : Str) (pre suf : Name),
+    splitLabels l bs cur = pre ++ suf → pre ≠ [] → suf ≠ [] →
+    ∃ a r, l = a ++ '.' :: r ∧ r ≠ [] ∧ scanBs bs a % 2 = 0 ∧ suf = splitLabels r 0 [] := by
+  intro l
+  induction l with
+  | nil =>
+    intro bs cur pre suf h hp hs
+    simp only [splitLabels] at h
+    have := congrArg List.length h
+    cases pre <;> cases suf <;> simp at hp hs this
+  | cons c t ih =>
+    intro bs cur pre suf h hp hs
+    cases t with
+    | nil =>
+      simp only [splitLabels] at h
+      have := congrArg List.length h
+      cases pre <;> cases suf <;> simp at hp hs this
+    | cons d rest =>
+      simp only [splitLabels] at h
+      by_cases hsep : c = '.' ∧ bs % 2 = 0
+      · simp only [hsep, and_self, if_true] at h
+        cases pre with
+        | nil => exact absurd rfl hp
+        | cons lab pre' =>
+          simp only [List.cons_append, List.cons.injEq] at h
+          by_cases hp' : pre' = []
+          · subst hp'
+            refine ⟨[], d :: rest, by simp [hsep.1], by simp, by simpa [scanBs] using hsep.2, ?_⟩
+            simpa using h.2.symm
+          · obtain ⟨a, r, h1, h2, h3, h4⟩ := ih 0 [] pre' suf h.2 hp' hs
+            refine ⟨c :: a, r, by simp [h1], h2, ?_, h4⟩
+            have hc : c ≠ '\\' := by rw [hsep.1]; decide
+            simpa [scanBs, hc] using h3
+      · simp only [hsep, if_false] at h
+        obtain ⟨a, r, h1, h2, h3, h4⟩ := ih (if c = '\\' then bs + 1 else 0) (c :: cur) pre suf h hp hs
+        exact ⟨c :: a, r, by simp [h1], h2, by simpa [scanBs] using h3, h4⟩
+
+/-- **`dnsutil.NameInZone` is complete for the label-wise relation** on
+canonical names (`lower s = s`, what `dns.CanonicalName` returns). -/
+theorem nameInZone_complete (name zone : Str) (hn : lower name = name) (hzc : lower zone = zone)
+    (h : LabelSuffix (labelsOf zone) (labelsOf name)) : nameInZone name zone = true := by
+  unfold nameInZone
+  by_cases hroot : zone = ['.'] ∨ zone = []
+  · simp [hroot]
+  · simp only [hroot, if_false]
+    have hz1 : zone ≠ ['.'] := fun x => hroot (Or.inl x)
+    have hz0 : zone ≠ [] := fun x => hroot (Or.inr x)
+    obtain ⟨pre, suf, hsplit, heq⟩ := h
+    have hzl : labelsOf zone ≠ [] := fun x => hz1 ((labelsOf_eq_nil_iff zone).mp x)
+    have hsuf : suf ≠ [] := by
+      intro x; rw [x] at heq
+      have := heq.length_eq
+      exact hzl (List.eq_nil_of_length_eq_zero (by simpa using this))
+    by_cases hp : pre = []
+    · subst hp
+      simp only [List.nil_append] at hsplit
+      rw [← hsplit] at heq
+      have := lower_eq_of_labelsEq zone name heq
+      rw [hn, hzc] at this
+      simp [this]
+    · have hne : name ≠ ['.'] := by
+        intro x
+        have := (labelsOf_eq_nil_iff name).mpr x
+        rw [this] at hsplit
+        cases pre <;> simp at hsplit hp
+      have hl : labelsOf name = splitLabels name 0 [] := by unfold labelsOf; simp [hne]
+      rw [hl] at hsplit
+      obtain ⟨a, r, h1, h2, h3, h4⟩ := splitLabels_cut name 0 [] pre suf hsplit hp hsuf
+      -- suf flattens to r, which is zone up to case, hence zone
+      have hr : suf.flatten = r := by rw [h4, splitLabels_flatten]; simp
+      have hlow : lower zone = lower r := by
+        have := lower_flatten_of_labelsEq heq
+        rwa [labelsOf_flatten zone hz1, hr] at this
+      have hrfix : lower r = r := by
+        have := hn
+        rw [h1] at this
+        simp only [lower, List.map_append, List.map_cons] at this
+        have hlen : (List.map Char.toLower a).length = a.length := by simp
+        have := (List.append_inj this hlen).2
+        simp only [List.cons.injEq] at this
+        exact this.2
+      have hzr : zone = r := by rw [← hzc, hlow, hrfix]
+      subst hzr
+      have hlen : name.length = a.length + 1 + zone.length := by rw [h1]; simp; omega
+      have hneq : name ≠ zone := by
+        intro x
+        have := congrArg List.length x
+        omega
+      have hle : ¬ name.length ≤ zone.length := by omega
+      simp only [hneq, hle, if_false]
+      have hcut : name.length - zone.length = a.length + 1 := by omega
+      rw [hcut]
+      simp only [Nat.add_sub_cancel, Bool.and_eq_true, beq_iff_eq]
+      refine ⟨⟨?_, ?_⟩, ?_⟩
+      · rw [h1]; simp [List.getD_eq_getElem?_getD]
+      · rw [h1]
+        have : a ++ '.' :: zone = (a ++ ['.']) ++ zone := by simp
+        rw [this, List.drop_left' (by simp)]
+      · rw [h1, List.take_left' rfl, ← scanBs_zero]
+        exact h3
+
 end SdnsVerif.Lemmas.Bailiwick
